@@ -98,7 +98,14 @@ fn check_totality(t: &mut Tape, ctx: &CaseCtx) -> CaseResult {
                     let i = t.choose(4);
                     p[i] = *t.pick(&[b'(', b'[', b'{', b'"', b' ']);
                 }
-                3 => p.extend_from_slice(PREFIX),
+                3 => {
+                    // the guard repeated: twice, a few times, or a flood of them
+                    let k = *t.pick(&[1usize, 1, 2, 4, 1000, 100_000]);
+                    for _ in 0..k {
+                        p.extend_from_slice(PREFIX);
+                    }
+                    deep = k >= 1000;
+                }
                 _ => {
                     p.insert(0, b' ');
                 }
@@ -138,6 +145,11 @@ fn check_totality(t: &mut Tape, ctx: &CaseCtx) -> CaseResult {
     }
     if a != b && !already_prefixed {
         return Err(Failure::new("prefix-variance", format!("parse(prefix+d) = {b:?} but parse(d) = {a:?}"), case));
+    }
+    // the guard is accepted once: what follows it must be the JSON document, and `)` cannot begin one
+    let after_one_guard = bytes.strip_prefix(PREFIX).unwrap_or(&bytes[..]);
+    if after_one_guard.starts_with(b")]}'") && a.is_some() {
+        return Err(Failure::new("repeated-guard-accepted", format!("a document behind a repeated anti-XSSI guard was accepted: {a:?}"), case));
     }
     // a damaged prefix is not the prefix: must not be silently accepted as one
     if must_reject && a.is_some() {
